@@ -421,3 +421,147 @@ func runSubstContra(p *Program, r *RuleResult) {
 }
 
 func constantString(s string) constant.Value { return constant.MakeString(s) }
+
+// R-BINDER-INSTANTIATED (C04, C01, C14): when a form steps to its continuation, every name
+// the form binds in that continuation has been replaced by a run-time channel.
+func init() {
+	register(&Rule{Name: "R-BINDER-INSTANTIATED", Min: 20,
+		Doc: "for every form whose typing rule inserts binders into the context: in each of its transition functions (both interpreters, including the rule closures), every store of a continuation of the form into the process body is preceded on all paths by a Substitute call on that same continuation for each binder field, and the replacement is not the binder itself",
+		Run: runBinderInstantiated})
+}
+
+func runBinderInstantiated(p *Program, r *RuleResult) {
+	n := 0
+	for _, m := range p.typecheckMethods() {
+		// binder fields: keys inserted into a context by the typing rule
+		binders := map[string]bool{}
+		for _, b := range m.Fn.Blocks {
+			for _, in := range b.Instrs {
+				if mu, ok := in.(*ssa.MapUpdate); ok && isCtxType(mu.Map.Type()) {
+					k := accessPath(mu.Key)
+					if strings.HasSuffix(k, ".Ident") {
+						binders[lastSeg(strings.TrimSuffix(k, ".Ident"))] = true
+					}
+				}
+			}
+		}
+		if len(binders) == 0 {
+			continue
+		}
+		var bl []string
+		for b := range binders {
+			bl = append(bl, b)
+		}
+		sort.Strings(bl)
+		for _, fam := range []string{"Transition", "TransitionNP"} {
+			root := p.MethodOpt(m.T, fam)
+			if root == nil {
+				continue
+			}
+			for _, fn := range append([]*ssa.Function{root}, allAnon(root)...) {
+				view := p.View(fn)
+				ord := 0
+				for _, b := range view.Blocks() {
+					for _, in := range view.Instrs(b) {
+						st, ok := in.(*ssa.Store)
+						if !ok {
+							continue
+						}
+						if _, fname, ok := fieldNameOf(st.Addr); !ok || fname != "Body" || !isFormType(st.Val.Type()) {
+							continue
+						}
+						// the continuation(s) committed here: a load of a Form-typed field, possibly
+						// selected by a phi (the loop over the branches of a case)
+						type cand struct {
+							src  ssa.Value
+							pred *ssa.BasicBlock // non-nil: the value arrives through a phi edge from this block
+						}
+						var cands []cand
+						var collect func(v ssa.Value, from *ssa.BasicBlock, d int)
+						collect = func(v ssa.Value, from *ssa.BasicBlock, d int) {
+							if d > 4 {
+								return
+							}
+							if ph, ok := v.(*ssa.Phi); ok {
+								for i, e := range ph.Edges {
+									if isNilConst(e) {
+										continue
+									}
+									collect(e, ph.Block().Preds[i], d+1)
+								}
+								return
+							}
+							o := origin(v)
+							if ph, ok := o.(*ssa.Phi); ok && o != v {
+								collect(ph, from, d+1)
+								return
+							}
+							if ld, ok := o.(*ssa.UnOp); ok {
+								if _, ok := ld.X.(*ssa.FieldAddr); ok {
+									cands = append(cands, cand{o, from})
+								}
+							}
+						}
+						collect(st.Val, nil, 0)
+						if len(cands) == 0 {
+							continue
+						}
+						ord++
+						for ci, cd := range cands {
+							fa := cd.src.(*ssa.UnOp).X.(*ssa.FieldAddr)
+							_, contField, _ := fieldNameOf(fa)
+							for _, bf := range bl {
+								n++
+								construct := fmt.Sprintf("%s:commit#%d.%d(%s):binder-%s", fam, ord, ci+1, contField, bf)
+								var selfSub ssa.Instruction
+								src := cd.src
+								pred := func(x ssa.Instruction) bool {
+									c, ok := x.(ssa.CallInstruction)
+									if !ok {
+										return false
+									}
+									com := c.Common()
+									if !(com.IsInvoke() && com.Method.Name() == "Substitute") || len(com.Args) != 2 {
+										return false
+									}
+									if origin(com.Value) != src {
+										return false
+									}
+									oldP := accessPath(com.Args[0])
+									if lastSeg(oldP) != bf {
+										return false
+									}
+									if np := accessPath(com.Args[1]); np != "" && np == oldP {
+										selfSub = x
+										return false
+									}
+									return true
+								}
+								passed := false
+								if cd.pred == nil {
+									passed = view.passedBefore(st, pred)
+								} else {
+									passed = view.mustPassBefore(pred)[cd.pred]
+									for _, x := range view.Instrs(cd.pred) {
+										if pred(x) {
+											passed = true
+										}
+									}
+								}
+								if passed {
+									r.add(fnName(fn), construct, Holds, p.instrPos(st), "")
+								} else if selfSub != nil {
+									r.add(fnName(fn), construct, Violated, p.instrPos(selfSub), fmt.Sprintf("binder %s is replaced by itself: the continuation keeps the static name instead of a run-time channel", bf))
+								} else {
+									r.add(fnName(fn), construct, Violated, p.instrPos(st),
+										fmt.Sprintf("the continuation %s becomes the process body on a path on which binder %s has not been substituted in it: the continuation refers to a name that is no channel (it blocks or fails when it is used)", contField, bf))
+								}
+							}
+						}
+					}
+				}
+			}
+		}
+	}
+	r.count("binder instantiations required", n)
+}
